@@ -460,8 +460,9 @@ func (i If) byteCode(srcsel int, fl flags.Pass, cr compResult) bytecode.Type {
 
 	if tcSize == 0 && discard {
 		// if true case produced no code ie, single immediate like
-		// if false 1 and we are discarding, then we don't even need the if
-		*cr.CS = (*cr.CS)[:len(*cr.CS)-1]
+		// if false 1 and we are discarding, then the if has no body to jump
+		// over, but the condition still has to be consumed and type checked
+		(*cr.CS)[jmpfAddr] |= bytecode.EncodeSrc(1, bytecode.AddrImm, 1)
 		return bytecode.EncodeSrc(srcsel, tcInstr.Src0(), tcInstr.Src0Addr())
 	}
 
